@@ -7,7 +7,7 @@ pub mod ctx;
 pub mod guard;
 pub mod refmodel;
 
-pub use ctx::{Ctx, Tier};
+pub use ctx::{Ctx, FinalGuard, Tier};
 pub use serde_json::{json, Value};
 
 use std::panic::{catch_unwind, AssertUnwindSafe};
